@@ -15,7 +15,10 @@ import (
 )
 
 func readRules(input io.Reader) ([]rule, error) {
-	rules := defaultExclusions
+	// Start from a copy of the defaults: the loop below marks rules in place,
+	// which must not reach the shared package-level rules.
+	rules := make([]rule, len(defaultExclusions))
+	copy(rules, defaultExclusions)
 	scanner := bufio.NewScanner(input)
 	scanner.Split(bufio.ScanLines)
 	currentRuleIndex := len(defaultExclusions) - 1
